@@ -34,9 +34,10 @@ func vCardFB(f, row, col int) uint16 {
 }
 
 type vCardStep struct {
-	add    int // bytes arriving before this call returns
-	gapOff int // >=0: remove gapLen bytes at this offset of the unreleased window
-	gapLen int
+	add      int // bytes arriving before this call returns
+	gapOff   int // >=0: remove gapLen bytes at this offset of the unreleased window
+	gapLen   int
+	alignEnd bool // pad add so that the data delivered so far end exactly on a frame boundary
 }
 
 type vCardScript struct {
@@ -83,7 +84,7 @@ type vCard struct {
 	trailerCalls int
 	stopDelay    time.Duration
 	backlog      func() int // entries waiting in the reader's buffer (flow control)
-	realClock    bool // time stamps from the wall clock (free-running workloads), not from the byte count
+	realClock    bool       // time stamps from the wall clock (free-running workloads), not from the byte count
 }
 
 type vCardFault struct {
@@ -195,6 +196,7 @@ func (k *vCard) StartCollector(bool) error {
 	return nil
 }
 func (k *vCard) StopCollector() error { return nil }
+
 // Wait returns when the driver's threshold amount of data is available (here: 4 frames).
 func (k *vCard) Wait() (time.Time, time.Duration, error) {
 	k.mu.Lock()
@@ -226,6 +228,9 @@ func (k *vCard) AvailableBuffer() ([]byte, time.Time, error) {
 		}
 		if call < len(s.steps) {
 			st := s.steps[call]
+			if st.alignEnd {
+				st.add += (k.frameSize - int((k.produced+int64(st.add))%int64(k.frameSize))) % k.frameSize
+			}
 			k.arrive(st.add)
 			if st.gapLen > 0 && st.gapOff+st.gapLen <= len(k.window) {
 				k.window = append(k.window[:st.gapOff:st.gapOff], k.window[st.gapOff+st.gapLen:]...)
@@ -357,6 +362,14 @@ func vGenCardScript(c *vCase, withGap bool) *vCardScript {
 				st.gapOff = 0 // whole frames vanish at a frame boundary (inside a frame this would splice two frames undetectably)
 				wholeOnly = true
 			} else {
+				if vChance(r, 0.5) {
+					// the read that contains the loss ends exactly on a frame boundary and is followed by one or two reads that are too
+					// short to be used (fewer than 3 frames): the loss must still be reported by the next block
+					st.alignEnd = true
+					for j := i + 1; j < i+1+vRange(r, 1, 2) && j < nsteps; j++ {
+						s.steps[j] = vCardStep{add: fs * vPick(r, 0, 1, 1, 2), gapOff: -1}
+					}
+				}
 				break // one alignment-breaking loss per run, so that the report can be attributed
 			}
 		}
@@ -408,11 +421,16 @@ func vRunLancero(c *vCase) {
 
 func vRunLanceroOnce(c *vCase, s *vCardScript) {
 	viper.Reset()
+	var processed int64
 	verifInstall(&verifHandlers{Duration: func(name string, d time.Duration) time.Duration {
 		if name == "lancero.readPeriod" {
 			return time.Millisecond
 		}
 		return d
+	}, Point: func(name string) {
+		if name == "core.process.end" {
+			atomic.AddInt64(&processed, 1)
+		}
 	}})
 	defer verifInstall(nil)
 	fs := s.nrows * s.ncols * 4
@@ -431,6 +449,38 @@ func vRunLanceroOnce(c *vCase, s *vCardScript) {
 	ls.ncards = 1
 	ls.clockMHz = 125
 	ls.firstRowChanNum = 1
+	if c.Idx%5 == 1 && s.nrows != s.ncols {
+		// an earlier run of the same source object on an array with the same number of channels but the transposed shape,
+		// with a mix fraction set: nothing of it may leak into the run that is checked (channel order, err/fb pairing, mix)
+		pre := vEndlessCard(s.ncols, s.nrows, uint64(c.R.Int63()))
+		pre.s.devnum = s.devnum
+		pre.backlog = func() int { return len(ls.buffersChan) }
+		pdev := &LanceroDevice{devnum: s.devnum, nrows: s.ncols, lsync: lsync, clockMHz: 125, card: pre}
+		ls.devices[s.devnum] = pdev
+		ls.active = []*LanceroDevice{pdev}
+		ls.nsamp = 1
+		pq := make(chan func())
+		if err := Start(ls, pq, 4, 16); err != nil {
+			// (the free-running card of the earlier run is not sampled successfully for every geometry: then there is no earlier run)
+			c.Cov("earlier_run_did_not_start", 1)
+		} else {
+			for i := 0; i < 5000 && atomic.LoadInt64(&processed) < 3; i++ {
+				time.Sleep(time.Millisecond)
+			}
+			ls.ConfigureMixFraction(&MixFractionObject{ChannelIndices: []int{1}, MixFractions: []float64{0.5}})
+			p1 := atomic.LoadInt64(&processed)
+			for i := 0; i < 5000 && atomic.LoadInt64(&processed) < p1+2; i++ {
+				time.Sleep(time.Millisecond)
+			}
+			if !vWatched(c, "Stop", 20*time.Second, func() { ls.Stop() }) {
+				return
+			}
+			c.Cov("runs_after_a_run_on_the_transposed_array", 1)
+		}
+		ls.nsamp = s.nsampADC
+		ls.devices = map[int]*LanceroDevice{s.devnum: dev}
+		ls.active = []*LanceroDevice{dev}
+	}
 	card.backlog = func() int { return len(ls.buffersChan) }
 	tap := &vLanTap{LanceroSource: ls}
 	card.tapCount = func() int { return int(atomic.LoadInt32(&tap.nblocks)) }
@@ -539,9 +589,9 @@ func vCheckLancero(c *vCase, s *vCardScript, card *vCard, tap *vLanTap, scales [
 		}
 		return true
 	}
-	var G []int    // card frame of each emitted frame
-	var L []int64  // frame index label of each emitted frame
-	var BI []int   // block index
+	var G []int   // card frame of each emitted frame
+	var L []int64 // frame index label of each emitted frame
+	var BI []int  // block index
 	prev := -1
 	var nextFirst FrameIndex
 	lossBefore := map[int]bool{} // block index -> frames were lost between the previous block and this one
